@@ -195,6 +195,23 @@ def c02(case, F):
     surv = [p for p in (F.final.get("survivors") or []) if "popen_loky_posix" in (p.get("cmdline") or "")]
     if surv:
         v.append((_sig(case, F, "workers_survive_tree"), witness_text(case, F, "worker processes still alive after the driver exited: %s" % [(p["pid"], p.get("state")) for p in surv])))
+    # "all remaining workers are killed": a worker that was in the middle of a task when the pool broke cannot
+    # have left with status 0 afterwards (it is SIGKILLed; only its own injected death gives another status)
+    if broken_done and not case.get("config", {}).get("sigchld_ignore"):
+        t_b = broken_done[0]
+        busy = {}
+        for tid, t in F.tasks.items():
+            for st in t["starts"]:
+                if st["t"] < t_b and not any(en["t"] < t_b and en["pid"] == st["pid"] for en in t["ends"]) and (F.procs.get(st["pid"]) or {}).get("ppid") == F.driver_pid:
+                    busy[st["pid"]] = tid
+        dead_by_plan = {d["pid"] for d in deaths}
+        codes = {}
+        for e in snaps:
+            codes.update(e["r"].get("exitcodes") or {})
+        for pid, tid in busy.items():
+            c = codes.get(str(pid))
+            if pid not in dead_by_plan and c == 0:
+                v.append((_sig(case, F, "worker_not_killed_after_break"), witness_text(case, F, "worker pid %d was running task %s when the pool broke and later left with exit status 0: it was not killed" % (pid, tid))))
     return v
 
 
